@@ -114,6 +114,28 @@ def di_shapes(tier):
         b2 = {"k": "nest", "prefix": "/y", "bp": {"ops": sib("clone_if_necessary", 0)}}
         if order == 0:
             shapes.append([a, b2])
+    # DI-INH: a constructor INHERITED from the parent whose input is re-registered by the nested blueprint: the value it receives is
+    # the one designated at the route (the child's registration), and the handler sees the same instance
+    for fl, cl in (("P", None), ("K", "clone_if_necessary")):
+        for depth, hm0, m10 in itertools.product([1, 2], ["r", None], ["r", "v"]):
+            if m10 == "v" and (fl == "P" and hm0 is not None):
+                continue  # would move a never-clone value that the handler also borrows: not this shape's subject
+            outer = ctor_op(0, fl, "0", "s", "request_scoped", cl)
+            outer["c"] = outer["c"][:-1] + "S2"
+            t1 = ctor_op(1, "P", in_code(fl, m10), "s", "request_scoped", None)
+            inner = ctor_op(0, fl, "0", "s", "request_scoped", cl)
+            route = {"k": "route", "c": handler_id(0, [in_code(fl, hm0), "PR", "0"])}
+            body = [inner, route] if depth == 1 else [inner, {"k": "nest", "bp": {"ops": [route]}}]
+            shapes.append([outer, t1, {"k": "nest", "bp": {"ops": body}}])
+    # DI-ABA: within ONE blueprint the latest registration wins, also when it repeats an earlier one verbatim (A, B, A => A)
+    for fl in ("P", "K"):
+        a = ctor_op(0, fl, "0", "s", "request_scoped", None)
+        b = dict(a)
+        b["c"] = a["c"][:-1] + "S2"
+        for first, second in ((a, b), (b, a)):
+            r = {"k": "route", "c": handler_id(0, [in_code(fl, "r"), "0", "0"])}
+            shapes.append([dict(first), dict(second), dict(first), r])
+            shapes.append([dict(first), dict(second), dict(first), {"k": "nest", "bp": {"ops": [r]}}])
     # DI-IMP: constructors brought in with `bp.import(from![module])` instead of individual registrations: a nested blueprint
     # that imports ONE child module must get that module's constructor although an enclosing import (of the parent module, or of
     # the sibling) already covers the type; explicit registrations and imports shadow each other by nesting level only
@@ -632,6 +654,7 @@ MIX_DIMS = [
     ("t0_at", ["same", "parent", "shadow"]),       # registered next to the route / in the parent blueprint / in both
     ("t1", [None, "v", "r"]),                      # T1 (plain) built from T0 by value / by reference
     ("t1_lc", ["request_scoped", "transient"]),
+    ("t1_at", ["same", "parent"]),                 # T1's constructor next to T0's innermost registration / in the parent blueprint
     ("h_t0", ["r", "v", "m", None]),               # how the handler takes T0
     ("h_t1", [None, "r", "v"]),
     ("h_fall", [False, True]),
@@ -661,8 +684,10 @@ def mix_shape(cfg):
     """Configuration -> list of ops, or None when the configuration is meaningless."""
     fl = cfg["t0_flav"][0]
     cl = "clone_if_necessary" if cfg["t0_flav"] == "Kc" else None
-    if cfg["t1"] is None and (cfg["t1_lc"] != "request_scoped" or cfg["h_t1"] is not None):
+    if cfg["t1"] is None and (cfg["t1_lc"] != "request_scoped" or cfg["h_t1"] is not None or cfg["t1_at"] != "same"):
         return None
+    if cfg["t1_at"] == "parent" and cfg["t0_at"] != "shadow":
+        return None  # only meaningful when the parent's T1 constructor would see ANOTHER T0 from where it is registered
     if cfg["mw1_kind"] is None and (cfg["mw1_t0"] is not None or cfg["mw1_fall"]):
         return None
     if cfg["mw2_kind"] is None and (cfg["mw2_t0"] is not None or cfg["mw2_fall"]):
@@ -691,8 +716,11 @@ def mix_shape(cfg):
     elif cfg["eh"] == "specific":
         ehs = [{"k": "eh", "c": f"EH_{e}_1__{eh_code}"} for e in ("ERRC", "ERRH", "ERRPRE", "ERRPOST", "ERRW")]
     ctors = [t0]
+    t1_op = None
     if cfg["t1"] is not None:
-        ctors.append(ctor_op(1, "P", in_code(fl, cfg["t1"]), "s", cfg["t1_lc"], None))
+        t1_op = ctor_op(1, "P", in_code(fl, cfg["t1"]), "s", cfg["t1_lc"], None)
+        if cfg["t1_at"] == "same":
+            ctors.append(t1_op)
     obs = []
     if cfg["obs"] == "plain1":
         obs = [{"k": "observer", "c": "OBS1__0"}]
@@ -740,7 +768,9 @@ def mix_shape(cfg):
     outer = dict(t0)
     outer["c"] = t0["c"][:-1] + "S2" if cfg["t0_var"] == "s" else f"C_T0{fl}__0__S"
     outer.pop("eh", None)
-    return [outer, {"k": "nest", "bp": {"ops": body}}]
+    # t1_at == parent: T1's constructor is inherited from the parent, its T0 input is the one designated AT THE ROUTE (the child's)
+    inherited = [t1_op] if (t1_op is not None and cfg["t1_at"] == "parent") else []
+    return [outer] + inherited + [{"k": "nest", "bp": {"ops": body}}]
 
 
 def _mix_without(ops, target):
